@@ -164,10 +164,17 @@ type Outcome struct {
 	OrderHash   string // event-order hash (interleaving measure)
 	StateHash   string // state digest at settle points
 	History     []string
+	Cover       map[string]bool // property-specific coverage items (e.g. judged (filter, topic) pairs)
 }
 
 func newOutcome() *Outcome { return &Outcome{Stats: map[string]int64{}} }
 func (o *Outcome) probe(name string) { o.Stats[name]++ }
+func (o *Outcome) cover(item string) {
+	if o.Cover == nil {
+		o.Cover = map[string]bool{}
+	}
+	o.Cover[item] = true
+}
 func (o *Outcome) violate(prop, kind string, step int, simMs int64, attrs map[string]string, f string, a ...interface{}) {
 	o.Violations = append(o.Violations, Violation{Prop: prop, Kind: kind, Attrs: attrs, Msg: fmt.Sprintf(f, a...), Step: step, SimMs: simMs})
 }
